@@ -18,6 +18,9 @@ namespace rkcommon {
     template <typename T>
     __forceinline T *alignedMalloc(size_t nElements, size_t align = 64)
     {
+      // NOTE: a count whose byte size does not fit in size_t cannot be satisfied
+      if (nElements > size_t(-1) / sizeof(T))
+        return nullptr;
       return (T *)alignedMalloc(nElements * sizeof(T), align);
     }
 
